@@ -32,7 +32,9 @@ const c09Base = `
 :- dynamic(q/1).
 `
 
-var c09Clauses = []string{"p(1)", "p(2)", "p(3)", "p(_)", "p(1)", "(p(X) :- q(X))", "(p(9) :- assertz(p(10)))", "(p(8) :- retract(p(1)))", "q(1)", "q(2)", "p(0)", "(p(7) :- asserta(q(7)))"}
+var c09Clauses = []string{"p(1)", "p(2)", "p(3)", "p(_)", "p(1)", "(p(X) :- q(X))", "(p(9) :- assertz(p(10)))", "(p(8) :- retract(p(1)))", "q(1)", "q(2)", "p(0)", "(p(7) :- asserta(q(7)))",
+	// one clause with a disjunctive body (stored as one compiled clause per alternative)
+	"(p(X) :- (X = 5 ; X = 6))", "(q(X) :- (X = 3 ; p(4)))"}
 
 type c09Gen struct {
 	r   *rand.Rand
@@ -59,7 +61,7 @@ func (g *c09Gen) op() string {
 	case 2, 3:
 		goal = "assertz(" + g.clause() + ")"
 	case 4, 5, 6:
-		goal = "retract(" + g.pick("p(1)", "p(2)", "p(3)", "p(_)", "p(10)", "q(_)", "q(1)", "(p(_) :- q(_))", "(p(_) :- _)", "p(0)") + ")"
+		goal = "retract(" + g.pick("p(1)", "p(2)", "p(3)", "p(_)", "p(10)", "q(_)", "q(1)", "(p(_) :- q(_))", "(p(_) :- _)", "p(0)", "(p(_) :- (_ ; _))", "(q(_) :- _)") + ")"
 	case 7:
 		goal = "retractall(" + g.pick("p(_)", "p(1)", "q(_)", "p(2)") + ")"
 	case 8:
